@@ -262,6 +262,14 @@ def plan(tier, seed):
     return {"nshards": 16, "params": {"soft_s": 600 if quick else 1800, "nprograms": 20 if quick else 240, "script_len": 8 if quick else 16}, "hard_timeout_s": 1200 if quick else 4000}
 
 
+
+def w2(tier):
+    """W2: the repository's own tests as a workload, observed through the hooks (vf/pytest_plugin.py)"""
+    tests = ['tests/test_schedules.py', 'tests/test_halide_ops.py']
+    if tier != "quick":
+        tests += ['tests/test_x86.py', 'tests/test_neon.py', 'tests/test_window.py', 'tests/test_cursors.py', 'tests/asplos25', 'tests/test_config.py', 'tests/test_typecheck.py']
+    return {"tests": tests, "monitors": ["C17"], "timeout": 900 if tier == "quick" else 2400}
+
 def shard(ctx):
     from ..templates import any_template
 
